@@ -4,6 +4,7 @@ import (
 	"go/ast"
 	"go/token"
 	"go/types"
+	"sort"
 	"strings"
 
 	"golang.org/x/tools/go/packages"
@@ -28,7 +29,7 @@ func init() {
 func runC14(c *core.Ctx) {
 	c.Rule("C14.open", "A2: Service.Open visits every page of stored tasks; each task with Status==Enabled reaches startTask; a start error does not leave the loop or fail Open")
 	c.Rule("C14.start", "A2: startTask: newKapacitorTask error ⇒ return before StartTask; StartTask error ⇒ returned; StartBatching error ⇒ tm.StopTask(t.ID) before returning it; the watcher goroutine stops the task when Wait returns an error")
-	c.Rule("C14.update", "A1: handleUpdateTask after validation: rename ⇒ Create(updated) then Delete(original.ID) (create error aborts), else Replace(updated) (error aborts); rename∧both enabled ⇒ stopTask(original.ID),startTask(updated); status changed∧Enabled ⇒ startTask(updated); status changed∧Disabled ⇒ stopTask(original.ID)")
+	c.Rule("C14.update", "A1: handleUpdateTask after validation: rename ⇒ Create(updated), then the template association is moved, then Delete(original.ID) (create/association error aborts), else Replace(updated) then the association (error aborts); no association call before the store write (F73); rename∧both enabled ⇒ stopTask(original.ID),startTask(updated); status changed∧Enabled ⇒ startTask(updated); status changed∧Disabled ⇒ stopTask(original.ID)")
 	c.Rule("C14.create", "A2: handleCreateTask starts the new task only after tasks.Create succeeded, and exactly when its status is Enabled")
 	c.Rule("C14.delete", "A1: deleteTask: task not found ⇒ nil without side effect; else DeleteTask on the task master iff Status==Enabled, and tasks.Delete(id) on every other path, whose error is returned")
 	c.Rule("C14.txerr", "A10: in every transaction body of services/task_store no error of tx.Put/Delete/Get/List/Exists is dropped or answered with nil")
@@ -44,6 +45,8 @@ func runC14(c *core.Ctx) {
 	c14Start(c, pkg)
 	c14Update(c, pkg)
 	c14Create(c, pkg)
+	c14Atomic(c, pkg)
+	c14ProbeRules(c, pkg)
 	c14Delete(c, pkg)
 	n := ruleTxErr(c, "C14.txerr", pkg, map[string]string{})
 	c.Floor("C14.txerr", "transaction-method error sites", n, 15)
@@ -303,6 +306,10 @@ func c14Update(c *core.Ctx, pkg *packages.Package) {
 			switch callee.Name() {
 			case "startTask", "stopTask":
 				return callee.Name()
+			case "updateTaskAssociation":
+				return "associate"
+			case "AssociateTask", "DisassociateTask":
+				return "associate-direct"
 			case "Create", "Delete", "Replace":
 				if sel, ok := call.Fun.(*ast.SelectorExpr); ok && an.FieldSel(info, sel.X, "Service", "tasks") {
 					return callee.Name()
@@ -332,6 +339,8 @@ func c14Update(c *core.Ctx, pkg *packages.Package) {
 					return "replaceErr", true
 				case "startTask":
 					return "startErr", true
+				case "updateTaskAssociation":
+					return "assocErr", true
 				}
 			}
 			return "", false
@@ -349,11 +358,15 @@ func c14Update(c *core.Ctx, pkg *packages.Package) {
 		return
 	}
 	c.Sites(len(paths))
-	an.CheckTable(c, "C14.update", "Service.handleUpdateTask", paths, an.Table{Atoms: []string{"sameid", "createErr", "replaceErr", "was", "en", "dis", "chg", "startErr"},
+	an.CheckTable(c, "C14.update", "Service.handleUpdateTask", paths, an.Table{Atoms: []string{"sameid", "createErr", "replaceErr", "assocErr", "was", "en", "dis", "chg", "startErr"},
 		Outcome: func(p *an.Path) string {
 			var s []string
 			for _, e := range p.Events {
 				if e.Kind != "call" {
+					continue
+				}
+				if e.Name == "associate" {
+					s = append(s, "associate")
 					continue
 				}
 				s = append(s, e.Name+"("+strings.Join(e.Args, ",")+")")
@@ -371,6 +384,11 @@ func c14Update(c *core.Ctx, pkg *packages.Package) {
 				if a["createErr"] {
 					return strings.Join(s, ",")
 				}
+				// F73: the template association follows the saved definition (a rejected request leaves no association behind)
+				s = append(s, "associate")
+				if a["assocErr"] {
+					return strings.Join(s, ",")
+				}
 				s = append(s, "Delete(original.ID)")
 				if a["was"] && a["en"] {
 					if a["chg"] {
@@ -384,6 +402,10 @@ func c14Update(c *core.Ctx, pkg *packages.Package) {
 			} else {
 				s = append(s, "Replace(updated)")
 				if a["replaceErr"] {
+					return strings.Join(s, ",")
+				}
+				s = append(s, "associate")
+				if a["assocErr"] {
 					return strings.Join(s, ",")
 				}
 			}
@@ -729,4 +751,295 @@ func c14Rollback(c *core.Ctx, pkg *packages.Package) {
 		}
 	}
 	c.Check(restored["TemplateID"] && restored["TICKscript"] && restored["Type"] && replace && reload, "C14.rollback", "updateAllAssociatedTasks#restores", rb.Pos(), "the rollback must restore TemplateID, TICKscript and Type from the old template, Replace the task and reload it if enabled (restored %v, replace %v, reload %v)", restored, replace, reload)
+}
+
+// c14ProbeRules: structural necessary conditions for the defects the C14 history probe found (F71-F75).
+func c14ProbeRules(c *core.Ctx, pkg *packages.Package) {
+	info := pkg.TypesInfo
+	c.Rule("C14.ids", "A3: F71/F72: every handler that takes an ID from a request for a task or template (create and update alike) tests it with the package's ID matcher before using it, and the matcher rejects the path elements . and ..")
+	c.Rule("C14.assoc", "A2: F73: in handleCreateTask and handleUpdateTask the template association (AssociateTask/DisassociateTask, directly or through a helper) is changed only on paths where the task definition was already saved (tasks.Create/Replace returned nil)")
+	c.Rule("C14.rollback", "A2: F74/F75: when updateAllAssociatedTasks fails, handleUpdateTemplate restores the template it saved before (Replace(original), or Create(original) after an ID change); the roll back of a task restores the dbrps remembered from the forward pass, not ones derived from the old script")
+
+	// F71: handlers that assign <x>.ID = <request>.ID must test the matcher on that value
+	n := 0
+	for _, name := range []string{"handleCreateTask", "handleUpdateTask", "handleCreateTemplate", "handleUpdateTemplate"} {
+		fn := c.Need("C14.ids", "services/task_store", "Service", name)
+		if fn == nil {
+			continue
+		}
+		matched := false
+		ast.Inspect(fn.Decl.Body, func(nd ast.Node) bool {
+			if call, ok := nd.(*ast.CallExpr); ok {
+				if sel, ok := call.Fun.(*ast.SelectorExpr); ok && sel.Sel.Name == "MatchString" && len(call.Args) == 1 && strings.HasSuffix(types.ExprString(call.Args[0]), ".ID") {
+					if id, ok := ast.Unparen(sel.X).(*ast.Ident); ok && strings.HasPrefix(id.Name, "valid") {
+						matched = true
+					}
+				}
+			}
+			return true
+		})
+		n++
+		c.Check(matched, "C14.ids", "Service."+name+"#validated", fn.Decl.Pos(), "%s takes an ID from the request and never tests it against the ID pattern: PATCH {\"id\": \"a/b\"} is accepted; Open lists the tasks to start with the pattern *, which does not match a /, so after a restart the enabled task is neither started nor counted", name)
+	}
+	c.Floor("C14.ids", "handlers that take an ID from a request", n, 4)
+	// F72: the matchers reject . and ..
+	dot := false
+	for _, f := range core.AllFuncs(pkg) {
+		if f.Decl.Name.Name != "MatchString" || f.Decl.Recv == nil {
+			continue
+		}
+		one, two := false, false
+		ast.Inspect(f.Decl.Body, func(nd ast.Node) bool {
+			if bl, ok := nd.(*ast.BasicLit); ok {
+				one = one || bl.Value == `"."`
+				two = two || bl.Value == `".."`
+			}
+			return true
+		})
+		dot = dot || (one && two)
+	}
+	c.Check(dot, "C14.ids", "idMatcher#dots", token.NoPos, "the ID matcher of the task store accepts . and ..: both match the pattern, but links are built with path.Join and request paths are cleaned — a task created with the ID .. is listed and running, its link is /kapacitor/v1, and GET/PATCH/DELETE on /tasks/.. are redirected: it can never be disabled or deleted")
+
+	// F73: association only after a successful save
+	for _, name := range []string{"handleCreateTask", "handleUpdateTask"} {
+		fn := c.Need("C14.assoc", "services/task_store", "Service", name)
+		if fn == nil {
+			continue
+		}
+		assocHelpers := map[string]bool{"AssociateTask": true, "DisassociateTask": true, "updateTaskAssociation": true}
+		eng := &an.Engine{Prog: c.P,
+			TrackCall: func(call *ast.CallExpr, callee *types.Func) string {
+				if callee == nil {
+					return ""
+				}
+				if assocHelpers[callee.Name()] {
+					return "assoc"
+				}
+				if sel, ok := call.Fun.(*ast.SelectorExpr); ok && (callee.Name() == "Create" || callee.Name() == "Replace") && an.FieldSel(info, sel.X, "Service", "tasks") {
+					return "save"
+				}
+				return ""
+			},
+			Classify: func(a an.Atom) (string, bool) {
+				if k, ok := an.ErrNilAtom(info, a); ok {
+					switch an.LastCall(k) {
+					case "Create", "Replace":
+						if strings.Contains(k, ".tasks.") {
+							return "saveErr", true
+						}
+					}
+				}
+				return "", false
+			}}
+		var paths []*an.Path
+		var err error
+		early := token.NoPos
+		if name == "handleUpdateTask" {
+			// too many paths as a whole: the part from the ID comparison on is explored, and no association call may stand
+			// before it
+			var start ast.Stmt
+			for _, st := range fn.Decl.Body.List {
+				if ifs, ok := st.(*ast.IfStmt); ok && start == nil {
+					cs := types.ExprString(ifs.Cond)
+					if strings.Contains(cs, ".ID != ") && strings.HasSuffix(cs, ".ID") {
+						start = st
+					}
+				}
+			}
+			if start == nil {
+				c.Undecided("C14.assoc", "Service."+name, fn.Decl.Pos(), "the statement that compares the old and the new ID was not found")
+				continue
+			}
+			ast.Inspect(fn.Decl.Body, func(nd ast.Node) bool {
+				if call, ok := nd.(*ast.CallExpr); ok && call.Pos() < start.Pos() {
+					if m := core.Callee(info, call); m != nil && assocHelpers[m.Name()] && early == token.NoPos {
+						early = call.Pos()
+					}
+				}
+				return true
+			})
+			paths, err = eng.RunRegion(fn, func(st ast.Stmt) bool { return st == start })
+		} else {
+			paths, err = eng.Run(fn)
+		}
+		if err != nil {
+			c.Undecided("C14.assoc", "Service."+name, fn.Decl.Pos(), "%v", err)
+			continue
+		}
+		good, seen := true, 0
+		if early != token.NoPos {
+			good = false
+			seen++
+			c.Fail("C14.assoc", "Service."+name+"#after-save", early, "%s changes the template association of the task before its definition was validated and saved: a rejected request (PATCH {id: t2} → 500 on a conflict) has already moved the association, the next update of the template rewrites the wrong task; when only the template changes, the test whether anything changed compares the old template with itself and the task stays with the old template", name)
+		}
+		for _, p := range paths {
+			ai := p.Index("assoc")
+			if ai < 0 {
+				continue
+			}
+			seen++
+			si := p.Index("save")
+			se, decided := p.Assign()["saveErr"]
+			if si < 0 || si > ai || !decided || se {
+				if good {
+					c.Fail("C14.assoc", "Service."+name+"#after-save", p.Events[ai].Pos, "%s changes the template association of the task before its definition was validated and saved (path [%s]): a rejected request leaves the association behind, and the next update of the template overwrites an unrelated task of that ID with the template script (POST /tasks {id t1, template-id T1} → 400, POST plain t1, PATCH T1: t1 is rewritten)", name, p.Cond())
+				}
+				good = false
+			}
+		}
+		if good && seen > 0 {
+			c.Ok("C14.assoc", "Service."+name+"#after-save")
+		}
+		if seen == 0 {
+			c.Undecided("C14.assoc", "Service."+name+"#after-save", fn.Decl.Pos(), "no association call found on any path")
+		}
+	}
+
+	// F75: restore the template when the tasks were rolled back
+	if fn := c.Need("C14.rollback", "services/task_store", "Service", "handleUpdateTemplate"); fn != nil {
+		eng := &an.Engine{Prog: c.P,
+			TrackCall: func(call *ast.CallExpr, callee *types.Func) string {
+				if callee == nil {
+					return ""
+				}
+				if callee.Name() == "updateAllAssociatedTasks" {
+					return "reload"
+				}
+				if sel, ok := call.Fun.(*ast.SelectorExpr); ok && (callee.Name() == "Replace" || callee.Name() == "Create") && an.FieldSel(info, sel.X, "Service", "templates") {
+					return "template." + callee.Name()
+				}
+				return ""
+			},
+			Classify: func(a an.Atom) (string, bool) {
+				if k, ok := an.ErrNilAtom(info, a); ok && an.LastCall(k) == "updateAllAssociatedTasks" {
+					return "reloadErr", true
+				}
+				return "", false
+			}}
+		paths, err := eng.Run(fn)
+		if err != nil {
+			c.Undecided("C14.rollback", "Service.handleUpdateTemplate", fn.Decl.Pos(), "%v", err)
+		} else {
+			good, seen := true, 0
+			for _, p := range paths {
+				ri := p.Index("reload")
+				if ri < 0 || !p.Assign()["reloadErr"] {
+					continue
+				}
+				seen++
+				restored := false
+				for _, e := range p.Events[ri+1:] {
+					if strings.HasPrefix(e.Name, "template.") {
+						restored = true
+					}
+				}
+				if !restored && good {
+					good = false
+					c.Fail("C14.rollback", "Service.handleUpdateTemplate#restore-template", p.RetPos, "the reload of the associated tasks failed and rolled them back, but the template saved before stays (path [%s]): the template shows the rejected script while its tasks run the old one, and every later update of such a task — disabling it included — re-reads the template and fails; with a new ID the old template and its associations are gone", p.Cond())
+				}
+			}
+			if good && seen > 0 {
+				c.Ok("C14.rollback", "Service.handleUpdateTemplate#restore-template")
+			}
+			c.Floor("C14.rollback", "paths of handleUpdateTemplate on which the reload failed", seen, 1)
+		}
+	}
+	// F74: the roll back restores remembered dbrps
+	if fn := c.Need("C14.rollback", "services/task_store", "Service", "updateAllAssociatedTasks"); fn != nil {
+		// a map local keyed by task id that the forward pass fills from task.DBRPs and the roll back reads
+		var m types.Object
+		ast.Inspect(fn.Decl.Body, func(nd ast.Node) bool {
+			as, ok := nd.(*ast.AssignStmt)
+			if !ok || len(as.Lhs) != 1 || len(as.Rhs) != 1 {
+				return true
+			}
+			if ix, ok := ast.Unparen(as.Lhs[0]).(*ast.IndexExpr); ok && strings.HasSuffix(types.ExprString(as.Rhs[0]), ".DBRPs") {
+				if id, ok := ast.Unparen(ix.X).(*ast.Ident); ok {
+					m = info.Uses[id]
+				}
+			}
+			return true
+		})
+		restored := false
+		if m != nil {
+			ast.Inspect(fn.Decl.Body, func(nd ast.Node) bool {
+				if as, ok := nd.(*ast.AssignStmt); ok {
+					for _, r := range as.Rhs {
+						if ix, ok := ast.Unparen(r).(*ast.IndexExpr); ok {
+							if id, ok := ast.Unparen(ix.X).(*ast.Ident); ok && info.Uses[id] == m {
+								restored = true
+							}
+						}
+					}
+				}
+				return true
+			})
+		}
+		c.Check(m != nil && restored, "C14.rollback", "Service.updateAllAssociatedTasks#dbrps", fn.Decl.Pos(), "the roll back of a task does not restore the dbrps the task had before the update (remembered per task: %v, read back: %v): it derives them from dbrp statements of the old script, so a task created with explicit dbrps from a template without statements is restarted with the dbrps of the rejected template and silently stops receiving its data", m != nil, restored)
+	}
+}
+
+// c14Atomic: F76 (known). A request that needs several store writes (rename: Create + association + Delete; template update: the
+// template + every task made from it) is atomic with respect to a crash only if the writes share one storage transaction. The
+// DAO methods each open their own (tasks.Create, tasks.Delete, templates.Replace …): a handler path with two or more of them is
+// several transactions, and a restart from the file between them shows a state no request ever asked for.
+func c14Atomic(c *core.Ctx, pkg *packages.Package) {
+	info := pkg.TypesInfo
+	c.Rule("C14.atomic", "A10: F76: no path of handleUpdateTask/handleUpdateTemplate performs two or more committing DAO calls (tasks.Create/Replace/Delete, templates.Create/Replace/Delete, a helper that replaces the associated tasks) outside one shared storage transaction")
+	for _, name := range []string{"handleUpdateTask", "handleUpdateTemplate"} {
+		fn := c.Need("C14.atomic", "services/task_store", "Service", name)
+		if fn == nil {
+			continue
+		}
+		// syntactic: committing DAO calls in the handler, by kind; two different kinds in one if/else arm or sequence = several
+		// transactions (the DAOs take no transaction parameter here)
+		kinds := map[string]token.Pos{}
+		sharedTx := false
+		ast.Inspect(fn.Decl.Body, func(nd ast.Node) bool {
+			call, ok := nd.(*ast.CallExpr)
+			if !ok {
+				return true
+			}
+			m := core.Callee(info, call)
+			if m == nil {
+				return true
+			}
+			if sel, ok := call.Fun.(*ast.SelectorExpr); ok {
+				for _, dao := range []string{"tasks", "templates"} {
+					if an.FieldSel(info, sel.X, "Service", dao) {
+						switch m.Name() {
+						case "Create", "Replace", "Delete":
+							kinds[dao+"."+m.Name()] = call.Pos()
+						case "CreateTx", "ReplaceTx", "DeleteTx":
+							sharedTx = true
+						}
+					}
+				}
+			}
+			if m.Name() == "updateAllAssociatedTasks" {
+				kinds["tasks.Replace(each associated task)"] = call.Pos()
+			}
+			return true
+		})
+		var ks []string
+		var pos token.Pos
+		for k, p := range kinds {
+			ks = append(ks, k)
+			if pos == token.NoPos || p < pos {
+				pos = p
+			}
+		}
+		sort.Strings(ks)
+		multi := false
+		switch name {
+		case "handleUpdateTask":
+			_, a := kinds["tasks.Create"]
+			_, b := kinds["tasks.Delete"]
+			multi = a && b
+		case "handleUpdateTemplate":
+			_, a := kinds["tasks.Replace(each associated task)"]
+			multi = a && len(kinds) >= 2
+		}
+		c.Check(!multi || sharedTx, "C14.atomic", "Service."+name+"#one-transaction", pos, "%s commits %v as separate storage transactions: a restart from the storage file between them shows a state no request asked for — after PATCH {id: t2} of an enabled t1, the file as of the first transaction has both t1 and t2, both enabled and both executing; a template update leaves the template new and its tasks old", name, ks)
+	}
 }
